@@ -263,20 +263,20 @@ Proof.
 Qed.
 
 (* ================= the reader on these bytes ================= *)
-Definition open_attr (r : wrun) (a : eattr) : eattr :=
-  mkEattr (if wr_it r then Some true else a_it a) (if wr_un r then Some true else a_un a)
+Definition open_attr (r : wrun) (a : sattr_stl) : sattr_stl :=
+  mkSattrStl (if wr_it r then Some true else a_it a) (if wr_un r then Some true else a_un a)
           (if wr_bx r then Some true else a_bx a) (a_col a) (a_dh a) (a_ds a) (a_dw a).
-Definition close_attr (r : wrun) (a : eattr) : eattr :=
-  mkEattr (if wr_it r then Some false else a_it a) (if wr_un r then Some false else a_un a)
+Definition close_attr (r : wrun) (a : sattr_stl) : sattr_stl :=
+  mkSattrStl (if wr_it r then Some false else a_it a) (if wr_un r then Some false else a_un a)
           (if wr_bx r then Some false else a_bx a) (a_col a) (a_dh a) (a_ds a) (a_dw a).
 (* what the reader returns for a line: trimmed text; each attribute is Some true on a run that has it, Some false
    on a later run of the same line once some earlier run had it (its closing code was seen), None otherwise *)
-Fixpoint expected_from (a : eattr) (l : list wrun) : list erun :=
+Fixpoint expected_from (a : sattr_stl) (l : list wrun) : list erun :=
   match l with
   | [] => []
   | r :: l' => mkErun (wr_text r) (open_attr r a) None None :: expected_from (close_attr r a) l'
   end.
-Definition expected_line (l : list wrun) : list erun := expected_from eattr0 l.
+Definition expected_line (l : list wrun) : list erun := expected_from sattr0_stl l.
 
 Lemma open_row_sty v c r items text a acc : sty_code v = Some c -> (v <=? 31) = false ->
   open_row (v :: r) items text a acc = open_row r (append_open items text a) [] (sty_update a c) acc.
@@ -410,7 +410,7 @@ Proof.
 Qed.
 
 Lemma line_row k l : line_repr l ->
-  open_row (line_bytes l ++ repeat 143 k) [] [] eattr0 None = Ok (expected_line l, None).
+  open_row (line_bytes l ++ repeat 143 k) [] [] sattr0_stl None = Ok (expected_line l, None).
 Proof.
   intros (Hne & HF & Hadj). rewrite line_go; [reflexivity | exact Hne | exact HF | exact Hadj | intros _; left; reflexivity].
 Qed.
@@ -456,7 +456,7 @@ Proof.
   intros H. unfold pad_right_cut, pad_right. apply firstn_all2. rewrite app_length, repeat_length. lia.
 Qed.
 
-Lemma rows_open_step row rows l lines : open_row row [] [] eattr0 None = Ok (l, None) -> l <> [] ->
+Lemma rows_open_step row rows l lines : open_row row [] [] sattr0_stl None = Ok (l, None) -> l <> [] ->
   rows_open (row :: rows) None lines = rows_open rows None (l :: lines).
 Proof. intros H Hne. cbn [rows_open]. rewrite H. cbn [bind]. destruct l; [contradiction | reflexivity]. Qed.
 
@@ -493,7 +493,7 @@ Definition is_true (o : option bool) : bool := match o with Some true => true | 
 Definition eff (x : erun) : str * bool * bool * bool :=
   (ru_text x, is_true (a_it (ru_at x)), is_true (a_un (ru_at x)), is_true (a_bx (ru_at x))).
 Definition wflags (r : wrun) : str * bool * bool * bool := (wr_text r, wr_it r, wr_un r, wr_bx r).
-Definition quiet (a : eattr) : Prop := is_true (a_it a) = false /\ is_true (a_un a) = false /\ is_true (a_bx a) = false.
+Definition quiet (a : sattr_stl) : Prop := is_true (a_it a) = false /\ is_true (a_un a) = false /\ is_true (a_bx a) = false.
 
 Lemma is_true_iff o : is_true o = true <-> o = Some true.
 Proof. destruct o as [[|]|]; cbn [is_true]; split; intros H; try reflexivity; discriminate. Qed.
@@ -561,11 +561,11 @@ Proof. vm_compute. reflexivity. Qed.
 
 Example ex_item_roundtrip :
   rows_open (split_byte 138 (pad_right_cut 143 112 (encode_text_stl (stl_item_text ex_item)))) None []
-  = Ok ([ [ mkErun [67;97;102;195;169] eattr0 None None;
-            mkErun [120;32;121] (mkEattr (Some true) (Some true) None None None None None) None None;
-            mkErun [49;48;32;194;164] (mkEattr (Some false) (Some false) None None None None None) None None ];
-          [ mkErun [72;105] (mkEattr None None (Some true) None None None None) None None;
-            mkErun [116;104;101;114;101] (mkEattr (Some true) None (Some false) None None None None) None None ] ], None).
+  = Ok ([ [ mkErun [67;97;102;195;169] sattr0_stl None None;
+            mkErun [120;32;121] (mkSattrStl (Some true) (Some true) None None None None None) None None;
+            mkErun [49;48;32;194;164] (mkSattrStl (Some false) (Some false) None None None None None) None None ];
+          [ mkErun [72;105] (mkSattrStl None None (Some true) None None None None) None None;
+            mkErun [116;104;101;114;101] (mkSattrStl (Some true) None (Some false) None None None None) None None ] ], None).
 Proof. vm_compute. reflexivity. Qed.
 (* the same, through the theorem *)
 Example ex_item_roundtrip_thm :
